@@ -165,6 +165,7 @@ except Exception:
     pass
 
 NOTES = {
+    'C05-r9-coeffs-collected-before-zero-filter': 'round 9. Caught by the polynomial clause of the stand-in (zero-coefficient chains followed by a different coefficient are generated); no deductive obligation reaches the compiler body.',
     'C17-r9-automaton-active-is-False': 'round 9. **Missed at first** (activity callables of the stand-in returned Python bools). Added: activity tables of odd edge ids are numpy bool masks (the callable returns numpy.bool_), and a new engine-F obligation `callback_result_used_by_truth_value` on `from_automaton`; both report it now.',
     'C16-r9-add-copy-only-on-id-overlap': 'round 9. Two agents (C16, C19) produced the same change independently; engine F refutes `modifies` / `no_capture[other->self]` of `OpGraph.add` for all inputs (definite write), the stand-in has disjoint-id graphs.',
     'C19-r9-add-copy-only-on-id-overlap': 'round 9. As above; C19 reports the named obligation with no-failing-input-found (its generators do not produce id-disjoint graphs), C16 supplies the replayed input.',
